@@ -239,6 +239,15 @@ pub fn generate(g: &mut Gen, thorough: bool) {
         g.push(format!("S_C16E\t{}", crate::wire::escape(def)), "oracle-bad-series", true);
         g.push(super::op_line("default", &[], &[], def, "tree", "F", ""), "typed-bad-series", true);
     }
+    // a malformed value of an optional scalar parameter is an error, not the default
+    for def in [
+        "helmert x=1 y=abc", "helmert x=1 y=2,5", "helmert y=", "helmert x=1 y=2x", "tmerc k_0=0.9996x", "merc lat_ts=56\u{b0}", "merc lon_0=12,5", "merc x_0=1q", "merc y_0=--1",
+        "utm zone=32 ellps=GRS80 zone=q", "lcc lat_1=57 lat_2=x", "lcc lat_1=57 lat_0=1:2:3:4", "laea lat_0=5 lon_0=E", "somerc lat_0=47 k_0=one", "helmert t_epoch=now", "deformation dt=soon grids=@null",
+        "molodensky dx=1 dy=z ellps_0=intl", "permtide from=mean to=zero k=k", "omerc latc=4 alpha=x", "helmert x=1 s=1_0",
+    ] {
+        g.push(format!("S_C16E\t{}", crate::wire::escape(def)), "oracle-bad-optional-scalar", true);
+        g.push(super::op_line("default", &[], &[], def, "tree", "F", ""), "typed-bad-optional-scalar", true);
+    }
     for def in ["probe", "probe real=1 real=2", "probe natural=1 natural=x", "probe unknown=5 other", "probe real=2 unknown=$real", "probe flag flag=false"] {
         g.push(super::op_line("default", &[], &[("probe".to_string(), "u:probe".to_string())], def, "tree", "F", ""), "typed-misc", true);
         g.push(super::op_line("default", &[], &[("probe".to_string(), "u:probereq".to_string())], def, "tree", "F", ""), "typed-misc", true);
